@@ -61,6 +61,21 @@ pub fn gen_edits(rng: &mut Rng, text: &str, n: usize) -> String {
             let key = *rng.pick(&["'", "'", "a", "/", "=", "<", ":", "0", "x", "\\", "n", " ", "\n", "_", "1", "\u{e9}"]);
             (cur.len(), cur.len(), key.to_string())
         } else if rng.chance(1, 10) {
+            // "toggle line comment": `// ` in front of the first non-blank character of a line (the tokens of that
+            // line become ONE comment; a line with a single token keeps the number of tokens), or its removal
+            let starts: Vec<usize> = std::iter::once(0).chain(cur.match_indices('\n').map(|(k, _)| k + 1)).collect();
+            let ls = *rng.pick(&starts);
+            let rest = &cur[ls..];
+            let ind = rest.len() - rest.trim_start_matches(|c: char| c == ' ' || c == '\t').len();
+            let at = ls + ind;
+            if cur[at..].starts_with("// ") {
+                (at, at + 3, String::new())
+            } else if cur[at..].starts_with("//") {
+                (at, at + 2, String::new())
+            } else {
+                (at, at, "// ".to_string())
+            }
+        } else if rng.chance(1, 10) {
             // an insertion of nothing but "white space" (for SPL, or only for Unicode) between two tokens or lines
             const WS: &[&str] = &[" ", "\n", "\t", "\r\n", "\u{a0}", "\u{c}", "\u{b}", "\u{85}", "\u{2028}", "\u{3000}", "    "];
             let (lo, _) = gen_text::char_range(rng, &cur);
@@ -161,6 +176,42 @@ pub fn gen_c02(rng: &mut Rng, n: usize, out: &mut Vec<String>) {
             let t = format!("{}{}\nproc main() {{\n  {}\n}}\n", pad, line, if rng.chance(1, 2) { "x := 1;" } else { "" });
             out.push(format!("NEW {}", hex_str(&t)));
             out.push(format!("PUB {}", hex_str(&t)));
+        }
+        if i % 40 == 21 {
+            // documentation blocks whose length passes a power of two inside a multi-byte character (a cap, a buffer
+            // or a truncation at such a size must not cut a character): declarations, parameters and variables
+            let cap = *rng.pick(&[64usize, 128, 256, 512, 1024, 2048, 4096, 8192, 16384, 65536]);
+            let wide = *rng.pick(&["\u{e4}", "\u{20ac}", "\u{1F600}"]);
+            let width = 40 + rng.below(60);
+            let mut doc = String::new();
+            let mut total = 0usize;
+            // every line contributes its text and its line feed; aim the wide character at the boundary, with a
+            // small random displacement to cover the ways the pieces may be joined
+            let target = cap - 1 - rng.below(3) + rng.below(4);
+            while total + width + 4 < target {
+                doc.push_str("// ");
+                doc.push_str(&"x".repeat(width));
+                doc.push('\n');
+                total += width + 2;
+            }
+            let fill = target.saturating_sub(total + 1 + 3 * wide.len());
+            doc.push_str("// ");
+            doc.push_str(&"y".repeat(fill));
+            // a run of wide characters around the boundary (however the pieces are joined, the cut falls inside one)
+            doc.push_str(&wide.repeat(8));
+            doc.push_str(" end\n");
+            let t = match rng.below(3) {
+                0 => format!("{}proc main() {{\n  var x: int;\n  x := 1;\n}}\n", doc),
+                1 => format!("{}type t = int;\nproc main() {{\n  var x: t;\n  x := 1;\n}}\n", doc),
+                _ => format!("proc main() {{\n{}  var x: int;\n  x := 1;\n}}\n", doc),
+            };
+            let h = hex_str(&t);
+            out.push(format!("NEW {}", h));
+            out.push(format!("PUB {}", h));
+            let line = t.matches('\n').count() as u32 - 2;
+            for op in ["HOV", "COMP", "SIG"] {
+                out.push(format!("{} {} {} {}", op, h, line, 2));
+            }
         }
         if i % 16 == 3 {
             // every request handler on generated programs (valid, and mutated into broken ones), at identifier
